@@ -32,6 +32,7 @@ def make(alias):
     class Alias(Contract):
         file, qualname, prop = F, alias, "C14"
         variant = "alias of " + tqual
+        always_bounded = True       # run-time agreement alias == class method on a real file for every keyword combination, every tier
         cases = {"all keywords given": None, "no keyword given (defaults)": None}
 
         def setup(self, cx):
@@ -130,7 +131,8 @@ _WHY = ("reader over an external parser (pyarrow / json / csv): restricted read 
 for _n in ("dataiter/data_frame.py::DataFrame.read_csv[restriction]", "dataiter/data_frame.py::DataFrame.read_parquet[restriction]",
            "dataiter/data_frame.py::DataFrame.read_json[restriction]", "dataiter/data_frame.py::DataFrame.from_json[restriction]",
            "dataiter/list_of_dicts.py::ListOfDicts.read_csv[restriction]", "dataiter/list_of_dicts.py::ListOfDicts.read_json[restriction]",
-           "dataiter/list_of_dicts.py::ListOfDicts.from_json[restriction]", "dataiter/geojson.py::GeoJSON.read[restriction]"):
+           "dataiter/list_of_dicts.py::ListOfDicts.from_json[restriction]", "dataiter/geojson.py::GeoJSON.read[restriction]",
+           "dataiter/data_frame.py::DataFrame.read_csv[no header: type map by generated names]"):
     bounded_only("C14", _n, _WHY)
 
 
